@@ -179,7 +179,8 @@ def strip_with_variable(prog, rep, rule, modules):
     n = 0
     for f in _in_modules(prog, modules):
         for c in calls_in(f.node):
-            if isinstance(c.func, ast.Attribute) and c.func.attr in ("lstrip", "rstrip", "strip") and len(c.args) == 1:
+            if isinstance(c.func, ast.Attribute) and c.func.attr in ("lstrip", "rstrip", "strip") and len(c.args) == 1 \
+                    and not (isinstance(c.func.value, ast.Name) and c.func.value.id in ("str", "bytes")):      # str.strip(word): the argument is the text
                 n += 1
                 lit = isinstance(c.args[0], ast.Constant)
                 rep.check(lit, rule, "%s: %s" % (f.short, unparse(c)[:50]), "literal character set",
